@@ -202,7 +202,7 @@ def gen_plan(rng, tier, config, opts):
         elif op == 'BNRANDMOD':
             kind = rng.below(7)
             if kind == 0:
-                b = rng.choice([2, 3, 4, 5, 255, 256, 257])
+                b = rng.choice([2, 3, 4, 5, 255, 256, 257, 1, 1])      # [1, 1) is empty: no value exists, the call must say so (and return)
             elif kind == 1:
                 k = rng.randint(2, 1023)
                 b = (1 << k) + rng.choice([-1, 0, 1])
@@ -470,6 +470,20 @@ def check(plan, transcript, config, opts):
             elif name == 'BNRANDMOD':
                 bound = int(op[1], 16)
                 key = ('BNRANDMOD', bound, m.key()) if m.known() else None
+                if bound < 2:
+                    # no integer lies in [1, bound): an error must be reported, whatever the generator was asked for meanwhile
+                    try:
+                        ln, nrb = consume_rbs('BNRANDMOD', 'BNRANDMOD-END')
+                    except Bad as b_:
+                        if b_.cls == 'transcript':
+                            raise Bad('range', 'bn_rand_mod(bound=%x) returned a value although [1, bound) is empty' % bound)
+                        raise
+                    out.evals += 1
+                    out.probe('bn_rand_mod-empty-range')
+                    if kv(ln)['thrown'] == '0' and kv(ln)['code'] == '0':
+                        raise Bad('range', 'bn_rand_mod(bound=%x) returned a value although [1, bound) is empty' % bound)
+                    prev_op = name
+                    continue
                 ln, nrb = consume_rbs('BNRANDMOD', 'BNRANDMOD')
                 f = kv(ln)
                 val = int.from_bytes(unhex(ln[-1]), 'big')
